@@ -14,6 +14,7 @@ import (
 	"unicode/utf8"
 
 	"github.com/matrix-org/gomatrixserverlib/spec"
+	"github.com/tidwall/sjson"
 	"golang.org/x/crypto/ed25519"
 	"pgregory.net/rapid"
 )
@@ -89,6 +90,9 @@ type c17LimCase struct {
 	// get the same outcome: "padded" (insignificant white space), "escaped" (\uXXXX for ASCII text),
 	// "unsigned" (a large unsigned section, which is stripped on receipt), "age_ts" (another stripped key).
 	Wire string `json:"wire,omitempty"`
+	// BadHash (receipt path, field limits only): the content hash does not match, so the parser keeps
+	// the event in redacted form - the limited fields survive redaction and the limits still apply
+	BadHash bool `json:"bad_hash,omitempty"`
 }
 
 // c17Wire re-spells a canonical event without changing its value (beyond the keys stripped on receipt).
@@ -326,6 +330,12 @@ func c17CheckLimits(ctx *vfCtx, c c17LimCase) {
 			ctx.Unjudged("harness could not hit the requested event size")
 			return
 		}
+		if c.BadHash && c.Size == 0 {
+			if tampered, terr := sjson.SetBytes(raw, "content.c17_tampered", 1); terr == nil {
+				raw = tampered
+				ctx.Class("receipt/content-hash-mismatch")
+			}
+		}
 		if c.Wire != "" {
 			wire := c17Wire(raw, c.Wire)
 			if len(wire) == len(raw) {
@@ -500,6 +510,9 @@ func c17EnumLimits(size, shard, nshards int, emit func(c17LimCase)) {
 						}
 						for n := 255 - size; n <= 255+size; n++ {
 							out(c17LimCase{Version: ver, Path: path, Fields: []c17Field{{name, unit, width, n}}})
+							if path == "receipt" {
+								out(c17LimCase{Version: ver, Path: path, Fields: []c17Field{{name, unit, width, n}}, BadHash: true})
+							}
 						}
 					}
 				}
@@ -545,6 +558,9 @@ func c17GenLimits(t *rapid.T) c17LimCase {
 	}
 	if rapid.IntRange(0, 3).Draw(t, "sized") == 0 {
 		c.Size = rapid.IntRange(65530, 65542).Draw(t, "size")
+	}
+	if c.Path == "receipt" && c.Size == 0 {
+		c.BadHash = rapid.IntRange(0, 2).Draw(t, "badHash") == 0
 	}
 	if c.Path == "receipt" && rapid.IntRange(0, 3).Draw(t, "respelt") == 0 {
 		c.Wire = rapid.SampledFrom([]string{"padded", "escaped", "unsigned", "age_ts"}).Draw(t, "wire")
@@ -946,6 +962,15 @@ func c17CheckVersionTable(ctx *vfCtx, c c17VTCase) {
 			want = "auth.test"
 		}
 		cell("restricted-join-servername", fmt.Sprint(sn, serr), fmt.Sprint(want, error(nil)))
+		// the server name is everything after the first colon: ports and address literals included
+		for _, name := range []string{"auth.test:8448", "1.2.3.4:443", "[2001:db8::1]:8448", "hs1:8008", "[::1]", "AUTH.Test"} {
+			sn, serr := impl.RestrictedJoinServername([]byte(`{"membership":"join","join_authorised_via_users_server":"@a:` + name + `"}`))
+			want := ""
+			if tr.Restricted {
+				want = name
+			}
+			cell("restricted-join-servername/with-port-or-literal", fmt.Sprint(sn, serr), fmt.Sprint(want, error(nil)))
+		}
 	})
 	// ---- redaction algorithm ----
 	cell("redaction", c17RedactionAlgorithm(ctx, impl), tr.Redaction)
